@@ -68,6 +68,7 @@ def check(ctx):
     ctx.guarded(BP, Call(re.escape(MQ) + "::BlockNode::copy_to_bulk"), lambda a: a.kind == "cmp" and ((a.op == "Lt" and True) or (a.op == "Gt" and True)) and (pidx(a.a) or pidx(a.b) or True) and a.op in ("Lt", "Gt"),
                 "mpsc/bulk-copy-only-if-nonempty", "bulk_pop copies slots only when pop_index < push_index (each copied slot was reserved)", pred_label="edge `pop_index < push_index`")
     shared.queue_commit_rules(ctx)
+    shared.mpsc_fast_bulk_contiguous(ctx)
     # delayed free of consumed blocks
     for fn in ("pop", "bulk_pop", "fast_bulk_pop"):
         fid = MQ + "::Queue::" + fn
